@@ -279,26 +279,39 @@ variable {env : Env} (hne : NoEscape env)
 include hne
 
 omit hne in
+/-- a new connection starts from a clean slate: the invariant holds whatever was going on -/
+theorem inv_reconnect (wait : Bool) (w : World) (hc : w.crashed = none) : Inv env (reconnect env wait w) := by
+  unfold reconnect
+  cases wait <;> exact ⟨rfl, rfl, rfl, rfl, hc⟩
+
+omit hne in
 theorem inv_sendPlain (w : World) (h : Inv env w) : Inv env (sendPlain w) := by
   unfold sendPlain
   split
   · exact h
   · exact inv_sendFinish env _ (inv_sendFlush env _ (inv_sendTake env w h))
 
-/-- when nothing escapes `takeMsg`, `_sendIfMsgs` is its plain body -/
-theorem sendIfMsgs_eq (w : World) : sendIfMsgs env w = sendPlain w := by
+/-- when nothing escapes `takeMsg` and no ping time-out is pending, `_sendIfMsgs` is its plain body -/
+theorem sendIfMsgs_eq (w : World) (hp : w.pingDue = false) : sendIfMsgs env w = sendPlain w := by
   unfold sendIfMsgs
-  rw [hne.2.1 w.queue]
+  rw [hne.2.1 w.queue, hp]
   split <;> rfl
 
-theorem inv_sendIfMsgs (w : World) (h : Inv env w) : Inv env (sendIfMsgs env w) := by
-  rw [sendIfMsgs_eq hne]; exact inv_sendPlain w h
+/-- … and in general it is the plain body or the in-loop reconnect -/
+theorem sendIfMsgs_cases (w : World) :
+    sendIfMsgs env w = sendPlain w ∨ sendIfMsgs env w = reconnect env false w := by
+  unfold sendIfMsgs
+  rw [hne.2.1 w.queue]
+  split
+  · cases w.pingDue
+    · exact Or.inl rfl
+    · exact Or.inr rfl
+  · exact Or.inl rfl
 
-omit hne in
-/-- a new connection starts from a clean slate: the invariant holds whatever was going on -/
-theorem inv_reconnect (wait : Bool) (w : World) (hc : w.crashed = none) : Inv env (reconnect env wait w) := by
-  unfold reconnect
-  cases wait <;> exact ⟨rfl, rfl, rfl, rfl, hc⟩
+theorem inv_sendIfMsgs (w : World) (h : Inv env w) : Inv env (sendIfMsgs env w) := by
+  rcases sendIfMsgs_cases hne w with e | e <;> rw [e]
+  · exact inv_sendPlain w h
+  · exact inv_reconnect false w h.nocrash
 
 /-- the `for line in lines` loop, from a state in which `ls` are the lines still to be fed -/
 theorem inv_feedLines (ls : List Bytes) (w : World)
@@ -422,6 +435,7 @@ theorem inv_step (w : World) (op : Op) (h : Inv env w) : Inv env (step env w op)
   | scriptRecv r => exact ⟨h.wire, h.queue, h.inbuf, h.fed, h.nocrash⟩
   | ircDie => exact ⟨h.wire, h.queue, h.inbuf, h.fed, h.nocrash⟩
   | tick => exact ⟨h.wire, h.queue, h.inbuf, h.fed, h.nocrash⟩
+  | pingTimeout => exact ⟨h.wire, h.queue, h.inbuf, h.fed, h.nocrash⟩
   | loop => exact inv_loop hne w h
 
 theorem inv_runOps (ops : List Op) (w : World) (h : Inv env w) : Inv env (runOps env w ops) := by
@@ -483,6 +497,7 @@ structure Calm (w : World) : Prop where
   crashed : w.crashed = none
   sendScript : w.sendScript = []
   reconnectAt : w.reconnectAt = false
+  pingDue : w.pingDue = false
 
 section
 variable {env : Env} (hne : NoEscape env)
@@ -491,9 +506,9 @@ include hne
 theorem calm_sendIfMsgs (w : World) (h : Calm w) :
     Calm (sendIfMsgs env w) ∧ (sendIfMsgs env w).recvScript = w.recvScript ∧ (sendIfMsgs env w).rx = w.rx ∧
     (sendIfMsgs env w).inbuffer = w.inbuffer := by
-  obtain ⟨h1, h2, h3, h4, h5, h6, h7⟩ := h
-  rw [sendIfMsgs_eq hne]
-  refine ⟨⟨?_, ?_, ?_, ?_, ?_, ?_, ?_⟩, ?_, ?_, ?_⟩ <;>
+  obtain ⟨h1, h2, h3, h4, h5, h6, h7, h8⟩ := h
+  rw [sendIfMsgs_eq hne w h8]
+  refine ⟨⟨?_, ?_, ?_, ?_, ?_, ?_, ?_, ?_⟩, ?_, ?_, ?_⟩ <;>
   · simp only [sendPlain, sendTake, takeAll, sendFlush, sendFinish, doSend, reallyDie, driverDie]
     (repeat' split) <;> simp_all
 
@@ -501,10 +516,10 @@ theorem calm_readData (b : Bytes) (w : World) (h : Calm w)
     (hnr : NoReconnectOn env (msgsOf env (splitLF (w.inbuffer ++ b)).1)) :
     Calm (readData env b w) ∧ (readData env b w).recvScript = w.recvScript ∧
       (readData env b w).rx = w.rx ++ b := by
-  obtain ⟨h1, h2, h3, h4, h5, h6, h7⟩ := h
+  obtain ⟨h1, h2, h3, h4, h5, h6, h7, h8⟩ := h
   unfold readData
   rw [feedLines_eq env hne _ _ hnr]
-  exact ⟨⟨h1, h2, h3, h4, h5, h6, h7⟩, rfl, rfl⟩
+  exact ⟨⟨h1, h2, h3, h4, h5, h6, h7, h8⟩, rfl, rfl⟩
 
 end
 
@@ -512,7 +527,7 @@ end
 def chunkOps (cs : List Bytes) : List Op := cs.flatMap (fun c => [.scriptRecv (.data c), .loop])
 
 theorem calm_setRecv (w : World) (rs : List RecvRes) (h : Calm w) : Calm { w with recvScript := rs } :=
-  ⟨h.connected, h.zombie, h.ircZombie, h.removed, h.crashed, h.sendScript, h.reconnectAt⟩
+  ⟨h.connected, h.zombie, h.ircZombie, h.removed, h.crashed, h.sendScript, h.reconnectAt, h.pingDue⟩
 
 theorem runTimer_calm (env : Env) (w : World) (h : Calm w) : runTimer env w = w := by
   unfold runTimer
@@ -627,7 +642,7 @@ theorem calm_chunkOps (hnr : NoReconnect env) (cs : List Bytes) (hcs : ∀ c ∈
 
 end
 
-theorem calm_init : Calm init := ⟨rfl, rfl, rfl, rfl, rfl, rfl, rfl⟩
+theorem calm_init : Calm init := ⟨rfl, rfl, rfl, rfl, rfl, rfl, rfl, rfl⟩
 
 /-! ### EAGAIN accounting and draining -/
 
@@ -648,14 +663,14 @@ include hne
 /-- one `_sendIfMsgs` whose `send()` raises EAGAIN while the counter is at most 120 -/
 theorem sendIfMsgs_eagain (w : World) (rs : List SendRes)
     (hc : w.connected = true) (hz : w.zombie = false) (hi : w.ircZombie = false)
-    (hk : w.crashed = none)
+    (hk : w.crashed = none) (hpd : w.pingDue = false)
     (hob : w.outbuffer ≠ []) (he : w.eagains ≤ 120) (hs : w.sendScript = .error 11 :: rs) :
     sendIfMsgs env w = { w with outbuffer := w.outbuffer ++ utf8 w.queue.flatten,
                                 taken := w.taken ++ w.queue, queue := [],
                                 sendScript := rs, eagains := w.eagains + 1 } := by
   have hne' : w.outbuffer ++ utf8 w.queue.flatten ≠ [] := append_ne_nil_left _ hob
   have hgt : ¬ (w.eagains > 120) := by omega
-  rw [sendIfMsgs_eq hne]
+  rw [sendIfMsgs_eq hne w hpd]
   unfold sendPlain sendTake takeAll sendFlush sendFinish
   simp only [hc, hz, hi, hk, Bool.not_true, Bool.false_eq_true, ↓reduceIte, hne']
   unfold doSend
@@ -665,11 +680,11 @@ theorem sendIfMsgs_eagain (w : World) (rs : List SendRes)
 /-- one `_sendIfMsgs` whose `send()` raises EAGAIN with the counter above 120: disconnect -/
 theorem sendIfMsgs_eagain_limit (w : World) (rs : List SendRes)
     (hc : w.connected = true) (hz : w.zombie = false) (hi : w.ircZombie = false)
-    (hk : w.crashed = none)
+    (hk : w.crashed = none) (hpd : w.pingDue = false)
     (hob : w.outbuffer ≠ []) (he : w.eagains > 120) (hs : w.sendScript = .error 11 :: rs) :
     (sendIfMsgs env w).connected = false ∧ (sendIfMsgs env w).wire = w.wire := by
   have hne' : w.outbuffer ++ utf8 w.queue.flatten ≠ [] := append_ne_nil_left _ hob
-  rw [sendIfMsgs_eq hne]
+  rw [sendIfMsgs_eq hne w hpd]
   unfold sendPlain sendTake takeAll sendFlush sendFinish
   simp only [hc, hz, hi, hk, Bool.not_true, Bool.false_eq_true, ↓reduceIte, hne']
   unfold doSend
@@ -678,7 +693,7 @@ theorem sendIfMsgs_eagain_limit (w : World) (rs : List SendRes)
 
 theorem sendN_eagain_burst (k : Nat) (w : World) (rs : List SendRes)
     (hc : w.connected = true) (hz : w.zombie = false) (hi : w.ircZombie = false)
-    (hk : w.crashed = none)
+    (hk : w.crashed = none) (hpd : w.pingDue = false)
     (hob : w.outbuffer ≠ []) (he : w.eagains + k ≤ 121)
     (hs : w.sendScript = List.replicate k (.error 11) ++ rs) :
     (sendN env k w).connected = true ∧ (sendN env k w).wire = w.wire ∧
@@ -689,13 +704,13 @@ theorem sendN_eagain_burst (k : Nat) (w : World) (rs : List SendRes)
   | succ k ih =>
     have hs' : w.sendScript = .error 11 :: (List.replicate k (.error 11) ++ rs) := by
       rw [hs, List.replicate_succ, List.cons_append]
-    have e := sendIfMsgs_eagain hne w _ hc hz hi hk hob (by omega) hs'
+    have e := sendIfMsgs_eagain hne w _ hc hz hi hk hpd hob (by omega) hs'
     simp only [sendN]
     rw [e]
     have := ih { w with outbuffer := w.outbuffer ++ utf8 w.queue.flatten,
                         taken := w.taken ++ w.queue, queue := [],
                         sendScript := List.replicate k (.error 11) ++ rs, eagains := w.eagains + 1 }
-      hc hz hi hk (append_ne_nil_left _ hob) (by show w.eagains + 1 + k ≤ 121; omega) rfl
+      hc hz hi hk hpd (append_ne_nil_left _ hob) (by show w.eagains + 1 + k ≤ 121; omega) rfl
     obtain ⟨a1, a2, a3, a4, a5⟩ := this
     refine ⟨a1, a2, ?_, ?_, a5⟩
     · rw [a3]; simp [utf8_nil]
@@ -704,13 +719,13 @@ theorem sendN_eagain_burst (k : Nat) (w : World) (rs : List SendRes)
 /-- one `_sendIfMsgs` whose `send()` accepts `n` bytes -/
 theorem sendIfMsgs_sent (w : World) (n : Nat) (rs : List SendRes)
     (hc : w.connected = true) (hz : w.zombie = false) (hi : w.ircZombie = false)
-    (hk : w.crashed = none)
+    (hk : w.crashed = none) (hpd : w.pingDue = false)
     (hne' : w.outbuffer ++ utf8 w.queue.flatten ≠ []) (hs : w.sendScript = .sent n :: rs) :
     sendIfMsgs env w = { w with outbuffer := (w.outbuffer ++ utf8 w.queue.flatten).drop n,
                                 wire := w.wire ++ (w.outbuffer ++ utf8 w.queue.flatten).take n,
                                 taken := w.taken ++ w.queue, queue := [],
                                 sendScript := rs, eagains := 0 } := by
-  rw [sendIfMsgs_eq hne]
+  rw [sendIfMsgs_eq hne w hpd]
   unfold sendPlain sendTake takeAll sendFlush sendFinish
   simp only [hc, hz, hi, hk, Bool.not_true, Bool.false_eq_true, ↓reduceIte, hne']
   unfold doSend
@@ -719,13 +734,13 @@ theorem sendIfMsgs_sent (w : World) (n : Nat) (rs : List SendRes)
 /-- one `_sendIfMsgs` with nothing scripted: `send()` accepts everything -/
 theorem sendIfMsgs_unscripted (w : World)
     (hc : w.connected = true) (hz : w.zombie = false) (hi : w.ircZombie = false)
-    (hk : w.crashed = none) (hs : w.sendScript = []) :
+    (hk : w.crashed = none) (hpd : w.pingDue = false) (hs : w.sendScript = []) :
     (sendIfMsgs env w).outbuffer = [] ∧ (sendIfMsgs env w).queue = [] ∧
     (sendIfMsgs env w).connected = true ∧ (sendIfMsgs env w).zombie = false ∧
     (sendIfMsgs env w).ircZombie = false ∧ (sendIfMsgs env w).crashed = none ∧
-    (sendIfMsgs env w).sendScript = [] := by
-  rw [sendIfMsgs_eq hne]
-  refine ⟨?_, ?_, ?_, ?_, ?_, ?_, ?_⟩ <;>
+    (sendIfMsgs env w).pingDue = false ∧ (sendIfMsgs env w).sendScript = [] := by
+  rw [sendIfMsgs_eq hne w hpd]
+  refine ⟨?_, ?_, ?_, ?_, ?_, ?_, ?_, ?_⟩ <;>
   · simp only [sendPlain, sendTake, takeAll, sendFlush, sendFinish, doSend, reallyDie, driverDie]
     (repeat' split) <;> simp_all
 
@@ -740,17 +755,17 @@ include hne
 
 theorem sendIfMsgs_idle (w : World)
     (hc : w.connected = true) (hz : w.zombie = false) (hi : w.ircZombie = false)
-    (hk : w.crashed = none) (hq : w.queue = []) (hob : w.outbuffer = []) :
+    (hk : w.crashed = none) (hpd : w.pingDue = false) (hq : w.queue = []) (hob : w.outbuffer = []) :
     sendIfMsgs env w = w := by
-  rw [sendIfMsgs_eq hne]
-  obtain ⟨c, z, ea, ob, ib, ra, sc, rm, cr, q, iz, fd, ss, rsn, wi, qd, tk, rx⟩ := w
+  rw [sendIfMsgs_eq hne w hpd]
+  cases w
   simp only at hc hz hi hq hob hk
   subst hc hz hi hq hob hk
   simp [sendPlain, sendTake, takeAll, sendFlush, sendFinish, utf8_nil]
 
 theorem sendN_drains_aux (k : Nat) (w : World)
     (hc : w.connected = true) (hz : w.zombie = false) (hi : w.ircZombie = false)
-    (hk' : w.crashed = none)
+    (hk' : w.crashed = none) (hpd : w.pingDue = false)
     (hq : w.queue = []) (hp : Positive w.sendScript) (hk : w.outbuffer.length ≤ k) :
     (sendN env k w).outbuffer = [] ∧ (sendN env k w).queue = [] ∧ (sendN env k w).connected = true := by
   induction k generalizing w with
@@ -760,17 +775,17 @@ theorem sendN_drains_aux (k : Nat) (w : World)
   | succ k ih =>
     simp only [sendN]
     by_cases hob : w.outbuffer = []
-    · rw [sendIfMsgs_idle hne w hc hz hi hk' hq hob]
-      exact ih w hc hz hi hk' hq hp (by rw [hob]; simp)
+    · rw [sendIfMsgs_idle hne w hc hz hi hk' hpd hq hob]
+      exact ih w hc hz hi hk' hpd hq hp (by rw [hob]; simp)
     · have hne' : w.outbuffer ++ utf8 w.queue.flatten ≠ [] := append_ne_nil_left _ hob
       cases hs : w.sendScript with
       | nil =>
-        obtain ⟨a1, a2, a3, a4, a5, a6, a7⟩ := sendIfMsgs_unscripted hne w hc hz hi hk' hs
-        exact ih _ a3 a4 a5 a6 a2 (by rw [a7]; intro r hr; cases hr) (by rw [a1]; simp)
+        obtain ⟨a1, a2, a3, a4, a5, a6, a8, a7⟩ := sendIfMsgs_unscripted hne w hc hz hi hk' hpd hs
+        exact ih _ a3 a4 a5 a6 a8 a2 (by rw [a7]; intro r hr; cases hr) (by rw [a1]; simp)
       | cons r rs =>
         obtain ⟨n, rfl, hn⟩ := hp r (by rw [hs]; simp)
-        rw [sendIfMsgs_sent hne w n rs hc hz hi hk' hne' hs]
-        refine ih _ hc hz hi hk' rfl (fun r hr => hp r (by rw [hs]; simp [hr])) ?_
+        rw [sendIfMsgs_sent hne w n rs hc hz hi hk' hpd hne' hs]
+        refine ih _ hc hz hi hk' hpd rfl (fun r hr => hp r (by rw [hs]; simp [hr])) ?_
         show ((w.outbuffer ++ utf8 w.queue.flatten).drop n).length ≤ k
         have : w.outbuffer.length ≠ 0 := by
           intro h0; exact hob (List.eq_nil_of_length_eq_zero h0)
@@ -779,34 +794,34 @@ theorem sendN_drains_aux (k : Nat) (w : World)
 
 theorem sendIfMsgs_nothing (w : World)
     (hc : w.connected = true) (hz : w.zombie = false) (hi : w.ircZombie = false)
-    (hk : w.crashed = none)
+    (hk : w.crashed = none) (hpd : w.pingDue = false)
     (hnil : w.outbuffer ++ utf8 w.queue.flatten = []) :
     sendIfMsgs env w = { w with outbuffer := w.outbuffer ++ utf8 w.queue.flatten,
                                 taken := w.taken ++ w.queue, queue := [] } := by
-  rw [sendIfMsgs_eq hne]
+  rw [sendIfMsgs_eq hne w hpd]
   unfold sendPlain sendTake takeAll sendFlush sendFinish
   simp only [hc, hz, hi, hk, hnil, Bool.not_true, Bool.false_eq_true, ↓reduceIte,
     Bool.false_and]
 
 theorem sendN_drains (k : Nat) (w : World)
     (hc : w.connected = true) (hz : w.zombie = false) (hi : w.ircZombie = false)
-    (hk' : w.crashed = none)
+    (hk' : w.crashed = none) (hpd : w.pingDue = false)
     (hp : Positive w.sendScript) (hk : (w.outbuffer ++ utf8 w.queue.flatten).length ≤ k) :
     (sendN env (k + 1) w).outbuffer = [] ∧ (sendN env (k + 1) w).queue = [] ∧
     (sendN env (k + 1) w).connected = true := by
   simp only [sendN]
   by_cases hne' : w.outbuffer ++ utf8 w.queue.flatten = []
-  · rw [sendIfMsgs_nothing hne w hc hz hi hk' hne']
-    exact sendN_drains_aux hne k _ hc hz hi hk' rfl hp
+  · rw [sendIfMsgs_nothing hne w hc hz hi hk' hpd hne']
+    exact sendN_drains_aux hne k _ hc hz hi hk' hpd rfl hp
       (by show (w.outbuffer ++ utf8 w.queue.flatten).length ≤ k; exact hk)
   · cases hs : w.sendScript with
     | nil =>
-      obtain ⟨a1, a2, a3, a4, a5, a6, a7⟩ := sendIfMsgs_unscripted hne w hc hz hi hk' hs
-      exact sendN_drains_aux hne k _ a3 a4 a5 a6 a2 (by rw [a7]; intro r hr; cases hr) (by rw [a1]; simp)
+      obtain ⟨a1, a2, a3, a4, a5, a6, a8, a7⟩ := sendIfMsgs_unscripted hne w hc hz hi hk' hpd hs
+      exact sendN_drains_aux hne k _ a3 a4 a5 a6 a8 a2 (by rw [a7]; intro r hr; cases hr) (by rw [a1]; simp)
     | cons r rs =>
       obtain ⟨n, rfl, hn⟩ := hp r (by rw [hs]; simp)
-      rw [sendIfMsgs_sent hne w n rs hc hz hi hk' hne' hs]
-      refine sendN_drains_aux hne k _ hc hz hi hk' rfl (fun r hr => hp r (by rw [hs]; simp [hr])) ?_
+      rw [sendIfMsgs_sent hne w n rs hc hz hi hk' hpd hne' hs]
+      refine sendN_drains_aux hne k _ hc hz hi hk' hpd rfl (fun r hr => hp r (by rw [hs]; simp [hr])) ?_
       show ((w.outbuffer ++ utf8 w.queue.flatten).drop n).length ≤ k
       rw [List.length_drop]; omega
 
@@ -831,19 +846,20 @@ section
 variable {env : Env} (hne : NoEscape env)
 include hne
 
-theorem flushed_sendIfMsgs (w : World) (h : Flushed w) : Flushed (sendIfMsgs env w) := by
-  obtain ⟨h1, h2⟩ := h
-  rw [sendIfMsgs_eq hne]
-  refine ⟨?_, ?_⟩ <;>
-  · simp only [sendPlain, sendTake, takeAll, sendFlush, sendFinish, doSend, reallyDie, driverDie]
-    (repeat' split) <;> simp_all
-
 omit hne in
 theorem flushed_reconnect (wait : Bool) (w : World) (h : Flushed w) : Flushed (reconnect env wait w) := by
   unfold reconnect
   cases wait
   · exact ⟨rfl, rfl⟩
   · exact ⟨h.script, rfl⟩
+
+theorem flushed_sendIfMsgs (w : World) (h : Flushed w) : Flushed (sendIfMsgs env w) := by
+  rcases sendIfMsgs_cases hne w with e | e <;> rw [e]
+  · obtain ⟨h1, h2⟩ := h
+    refine ⟨?_, ?_⟩ <;>
+    · simp only [sendPlain, sendTake, takeAll, sendFlush, sendFinish, doSend, reallyDie, driverDie]
+      (repeat' split) <;> simp_all
+  · exact flushed_reconnect false w h
 
 theorem flushed_feedLines (ls : List Bytes) (w : World) (h : Flushed w) : Flushed (feedLines env ls w) := by
   induction ls generalizing w with
@@ -943,6 +959,7 @@ theorem flushed_runOps {env : Env} (hne : NoEscape env) (ops : List Op) (w : Wor
     | scriptRecv r => exact ⟨h.script, h.buffer⟩
     | ircDie => exact ⟨h.script, h.buffer⟩
     | tick => exact ⟨h.script, h.buffer⟩
+    | pingTimeout => exact ⟨h.script, h.buffer⟩
     | loop => exact flushed_loop hne w h
 
 end C11
